@@ -117,8 +117,32 @@ impl C14 {
         if !exploded.q.is_empty() {
             ctx.class("lax_argument_with_pending_unifications");
         }
-        for (cls2, px) in [(class, f.to_lax()), ("pending_argument", exploded)] {
-            let lx = to_lax(&px);
+        // a third presentation: the term was edited before being handed over -- a scratch node was added, unified
+        // with a node of the term and deleted again (the pending pair must go with it), as a user cutting something
+        // out of a term does
+        let edited: Option<(PLax<u32, u64>, usize)> = if exploded.w.is_empty() { None } else {
+            let mut e = exploded.clone();
+            let x = (hash_of(&(spec, f)) % e.w.len() as u64) as usize;
+            e.w.push(e.w[x]);
+            let z = e.w.len() - 1;
+            // inserted in the middle of the pair list so that later pairs would slide if only one column were filtered
+            let at = e.q.len() / 2;
+            e.q.insert(at, if z % 2 == 0 { (x, z) } else { (z, x) });
+            Some((e, z))
+        };
+        let mut presentations: Vec<(&str, PLax<u32, u64>, Option<usize>)> = vec![(class, f.to_lax(), None), ("pending_argument", exploded.clone(), None)];
+        if let Some((e, z)) = edited {
+            presentations.push(("edited_argument", e, Some(z)));
+        }
+        for (cls2, px, delete) in presentations {
+            let mut lx = to_lax(&px);
+            if let Some(z) = delete {
+                ctx.class("lax_argument_edited_by_deleting_an_endpoint_of_a_pending_pair");
+                let inp0 = || json!({"optic": format!("{:?}", spec), "f": show_lax(&px), "delete_node": z});
+                if lib(ctx, "delete_nodes", cls2, &inp0, || lx.delete_nodes(&[open_hypergraphs::lax::NodeId(z)])).is_none() {
+                    continue;
+                }
+            }
             let inp = || json!({"optic": format!("{:?}", spec), "f": show_lax(&px)});
             let lx2 = lx.clone();
             if let Some(li) = lib(ctx, "lax::Optic::map_arrow", cls2, &inp, || lo.map_arrow(lx2)) {
@@ -281,6 +305,7 @@ impl Monitor for C14 {
             ("api:lax::Optic::map_arrow", 200),
             ("api:Optic::adapt", 200),
             ("class:lax_argument_with_pending_unifications", 100),
+            ("class:lax_argument_edited_by_deleting_an_endpoint_of_a_pending_pair", 100),
             ("class:map_operations_on_a_batch_of_several", 100),
             ("api:Optic::map_operations", 200),
         ]
